@@ -374,3 +374,140 @@ def csPerts (x : Vec) (s : Step) (idx : List Nat) : List Vec :=
   (csGenerate x s (effIndices x.length idx)).map (fun p => p.map (·.im))
 
 end GV.C16
+
+namespace GV.C16
+
+/-! ### `DisciplineJacApprox.compute_approx_jac`: requests made to ONE approximation object
+
+A discipline has named inputs / outputs of given sizes (positions in the grammars) and a function of the
+flat vector of *all* its inputs (`f`, over the rationals; `fc`, over the Gaussian rationals for the complex
+step).  A request names outputs and inputs (in any order) and optionally `x_indices`; it is served at the
+current local data `x` of the discipline (`Discipline.linearize` executes the discipline first):
+
+* `_create_approximator`: `self.func = generator.get_function(input_names, output_names)` — a
+  `DisciplineAdapter` which writes its argument into the requested inputs (`overwrite`), leaves the other
+  inputs at their *current* values (repaired tree `_create_approximator`/`compute_approx_jac`; the pinned tree
+  let them fall back to the default inputs), executes the discipline and concatenates the requested outputs
+  (`pick`) —, and a new gradient approximator on that function with the step of the object;
+* `x_vect = convert_data_to_array(input_names, discipline.io.data)` (`pick`);
+* `1 < len(step) != len(x_vect)` → `ValueError`;
+* `f_gradient(x_vect, x_indices, step)`, `flat_jac_complete[:, x_indices] = flat_jac` (`placeCols`),
+  `split_array_to_dict_of_arrays` by the sizes of the requested names, in the order of the request (`block`).
+
+The object keeps `self.func`, `self.approximator` (overwritten by every request) and `self.step`. -/
+
+inductive Scheme where
+  | fd | cd | cs
+  deriving Repr, DecidableEq
+
+/-- Flat components of the named variables (`a` = position of the name in the grammar), in the order of the
+    names: `convert_data_to_array(names, data)` concatenates the values in that order. -/
+def compsOf (sizes : List Nat) (names : List Nat) : List Nat :=
+  names.flatMap (fun a => (List.range (sizes.getD a 0)).map (· + (sizes.take a).sum))
+
+/-- `x[comps[k]] := v[k]` for every `k` (later assignments win): the argument of the adapter written into
+    the data of the discipline. -/
+def overwriteL {α : Type} (x : List α) (comps : List Nat) (v : List α) : List α :=
+  (comps.zip v).foldl (fun acc cv => acc.set cv.1 cv.2) x
+
+/-- The values of the given components, in order. -/
+def pickL {α : Type} (d : α) (comps : List Nat) (y : List α) : List α := comps.map (fun j => y.getD j d)
+
+def pick (comps : List Nat) (y : Vec) : Vec := pickL 0 comps y
+def pickG (comps : List Nat) (y : CVec) : CVec := pickL ⟨0, 0⟩ comps y
+
+/-- The function handed to the gradient approximator: argument → requested inputs (`fic`), the other inputs
+    at their current values `x`, requested outputs (`foc`). -/
+def reqFun (f : Vec → Vec) (x : Vec) (fic foc : List Nat) : Vec → Vec :=
+  fun v => pick foc (f (overwriteL x fic v))
+
+def reqFunG (fc : CVec → CVec) (x : Vec) (fic foc : List Nat) : CVec → CVec :=
+  fun v => pickG foc (fc (overwriteL (x.map GRat.ofRat) fic v))
+
+structure Disc where
+  inSizes : List Nat
+  outSizes : List Nat
+  f : Vec → Vec
+  fc : CVec → CVec
+
+structure Request where
+  outs : List Nat
+  ins : List Nat
+  xidx : List Nat
+  deriving Repr
+
+/-- `Inconsistent step size` / numpy's fancy indexing: what `compute_approx_jac` accepts. -/
+def reqValid (D : Disc) (s : Step) (r : Request) : Bool :=
+  validArgs (compsOf D.inSizes r.ins).length r.xidx s
+
+/-- The flat Jacobian (list of columns) of a request when the current function of the object embeds the names
+    `fnames = (inputs, outputs)` (`self.func`) while `x_vect` is built from the names of the request. -/
+def reqColsWith (sch : Scheme) (par : Bool) (D : Disc) (x : Vec) (s : Step) (fnames : List Nat × List Nat)
+    (r : Request) : List Vec :=
+  let fic := compsOf D.inSizes fnames.1
+  let foc := compsOf D.outSizes fnames.2
+  let xv := pick (compsOf D.inSizes r.ins) x
+  match sch, par with
+  | .fd, false => fdGrad (reqFun D.f x fic foc) none xv s r.xidx
+  | .fd, true => fdGradPar (reqFun D.f x fic foc) none xv s r.xidx
+  | .cd, false => cdGrad (reqFun D.f x fic foc) none xv s r.xidx
+  | .cd, true => cdGradPar (reqFun D.f x fic foc) none xv s r.xidx
+  | .cs, false => csGrad (reqFunG D.fc x fic foc) xv s r.xidx
+  | .cs, true => csGradPar (reqFunG D.fc x fic foc) xv s r.xidx
+
+/-- `flat_jac_complete` as rows, then one block per (output name, input name) of the request, outputs first. -/
+def splitBlocks (D : Disc) (r : Request) (cols : List Vec) : List (List Vec) :=
+  let m := (compsOf D.outSizes r.outs).length
+  let n := (compsOf D.inSizes r.ins).length
+  let rows := rowsOf m (placeCols m n r.xidx cols)
+  let rsz := r.outs.map (fun a => D.outSizes.getD a 0)
+  let csz := r.ins.map (fun b => D.inSizes.getD b 0)
+  (List.range rsz.length).flatMap (fun a => (List.range csz.length).map (fun b =>
+    block rows ((rsz.take a).sum) (rsz.getD a 0) ((csz.take b).sum) (csz.getD b 0)))
+
+/-- A fresh object serving the request: the function is built from the names of the request. -/
+def reqCols (sch : Scheme) (par : Bool) (D : Disc) (x : Vec) (s : Step) (r : Request) : List Vec :=
+  reqColsWith sch par D x s (r.ins, r.outs) r
+
+def reqBlocks (sch : Scheme) (par : Bool) (D : Disc) (x : Vec) (s : Step) (r : Request) : List (List Vec) :=
+  splitBlocks D r (reqCols sch par D x s r)
+
+/-- The state of a `DisciplineJacApprox`: `self.step` and the names embedded in `self.func`
+    (`none` before the first request). -/
+structure JacApprox where
+  step : Step
+  func : Option (List Nat × List Nat)
+
+/-- `_create_approximator(output_names, input_names)`: a new function and a new approximator, always. -/
+def JacApprox.create (st : JacApprox) (r : Request) : JacApprox := { st with func := some (r.ins, r.outs) }
+
+inductive JOp where
+  /-- `approximation.step = s` -/
+  | setStep (s : Step)
+  /-- `compute_approx_jac(outs, ins, x_indices)` with the local data `x` of the discipline -/
+  | request (x : Vec) (r : Request)
+
+/-- One operation: the new state and what is returned (`none`: nothing / an exception). -/
+def JacApprox.op (sch : Scheme) (par : Bool) (D : Disc) (st : JacApprox) : JOp → JacApprox × Option (List (List Vec))
+  | .setStep s => ({ st with step := s }, none)
+  | .request x r =>
+    let st' := st.create r
+    if !reqValid D st'.step r then (st', none) else
+    match st'.func with
+    | some fn => (st', some (splitBlocks D r (reqColsWith sch par D x st'.step fn r)))
+    | none => (st', none)
+
+def JacApprox.run (sch : Scheme) (par : Bool) (D : Disc) (st : JacApprox) : List JOp → JacApprox × List (Option (List (List Vec)))
+  | [] => (st, [])
+  | o :: rest =>
+    let r1 := st.op sch par D o
+    let r2 := JacApprox.run sch par D r1.1 rest
+    (r2.1, r1.2 :: r2.2)
+
+/-- The step in force after a history. -/
+def stepAfter (s : Step) : List JOp → Step
+  | [] => s
+  | .setStep t :: rest => stepAfter t rest
+  | .request _ _ :: rest => stepAfter s rest
+
+end GV.C16
